@@ -143,6 +143,10 @@ class _Limit(object):
     @staticmethod
     def _get_arg_min(errors):
         shape = errors.shape
+        all_nan = np.isnan(errors).all(axis=0)
+        if all_nan.any() and not all_nan.all():
+            # A column without any valid estimate must not spoil the other columns:
+            errors = np.where(all_nan, np.inf, errors)
         try:
             arg_mins = np.nanargmin(errors, axis=0)
             min_errors = np.nanmin(errors, axis=0)
